@@ -24,3 +24,22 @@ package fasthttp
 //@   end
 //@   loop 1:
 //@     invariant[attempts-so-far] attempts == _i
+
+// tryDial, the concurrency semaphore: a slot is given back (receive from concurrencyCh) exactly by a call that took
+// one (send to it), after it took it -- a dial that timed out waiting for a slot gives nothing back.
+//@ func TCPDialer.tryDial results c err
+//@   property C41
+//@   mode skeleton
+//@   ghost held int = 0
+//@   ghost dialed int = 0
+//@   on send concurrencyCh:
+//@     effect held = held + 1
+//@   on recv concurrencyCh:
+//@     requires[releases-only-a-held-slot] held == 1
+//@     effect held = held - 1
+//@   on call net.Dialer.DialContext -> cn, e:
+//@     requires[dials-only-with-a-slot] concurrencyCh == nil || held == 1
+//@     effect dialed = dialed + 1
+//@   end
+//@   ensures[slot-returned] held == 0
+//@   ensures[at-most-one-dial] dialed <= 1
